@@ -389,7 +389,7 @@ def run_case(case, drv):
                 # (witnesses of the known finding only: the property TEXT asks for no more than demands within capacity / L >= 3;
                 # the theorems and the generated stream carry the depot-window hypotheses PathPre / SeqPre)
                 res.fail(f"{form}:raises-in-text-scope", f"make_feasible raised {e!r}: the property's own conditions hold (demands within capacity / "
-                                                         f"at least three positions), the depot's window makes every completion impossible {label}")
+                                                         f"at least three positions); the depot's window lies outside the proved preconditions PathPre / SeqPre {label}")
             break
         n = check_solution(res, o, form, label + f" invocation {rnd + 1}")
         if n is None:
